@@ -394,6 +394,10 @@ def reference(world):
             failed.pop(c, None)   # a name that could not be found as a file turned up as a module of another file
             if m in requested or c in requested:
                 requested_canon.add(c)
+        if m not in mods and m not in requested:
+            # m is known from an IMPORTS clause only, so it names a MODULE; the file that answers to the name holds
+            # modules called differently: the module m does not exist
+            failed[m] = set(['missing'])
         todo.extend(imports.get(m, []))
 
     ref = {'allowed': {}, 'writes': {}, 'payload': {}, 'gen': set(), 'nogen': set()}
@@ -413,8 +417,11 @@ def reference(world):
         base = c[:-1] if c.endswith('X') and c[:-1] in users else c[:-4] if c.endswith('REAL') else c
         # a *used* import (the imported node is the OID parent) of a module that never got a symbol table makes code
         # generation of the importer fail as well
-        cascade = bool(world.get('used')) and c == base and any(
-            b != c and b not in parsed for a, b in world.get('edges', []) if a == c)
+        out_edges = [b for a, b in world.get('edges', []) if a == base]
+        cascade = c in (base, base + 'REAL') and any(
+            b not in parsed and ((world.get('used') and b != base) or (b == base and c != base)) for b in out_edges)
+        # (a module filed under another name that imports "itself" by the file name imports a module that does not exist,
+        # and the imported symbol collides with its own)
         if cascade or c in world.get('generr', []) or (world.get('text', {}).get(base) == 'badimport' and c == base):
             failed[c] = set(['failed'])
             ref['gen'].add(c)
@@ -505,10 +512,7 @@ def features(world):
 def well_formed(world):
     """Worlds the reference model speaks about: an import never names the file alias of a module that is really
     called differently (that would be an import of a module that does not exist)."""
-    for m, k in world.get('text', {}).items():
-        if k == 'misnamed' and any(b == m for a, b in world.get('edges', [])):
-            return False
-    return True
+    return True   # (an import naming the file alias of a differently named module used to be exempt: it is a missing module)
 
 
 def judge(world, obs, sigbase, step_budget_factor=10):
